@@ -334,12 +334,12 @@ example : (let ns := Nested.run nestedOwn.1 nestedOwn.2 (List.replicate 150 0)
 
 /-! ### the machine IS the translated source
 
-`Gen.iterCachedProgram` (Generated/RRBaseCache.lean) is `rrulebase._iter_cached` as `harness/translate_rrbase.py` reads it
+`Gen.iterCachedProgram` (Generated/RRBaseCache.lean) is `rrulebase.__iter__` followed by `rrulebase._iter_cached` as `harness/translate_rrbase.py` reads it
 from /repo's working tree on every run: one node per statement that is a pause point of the tracer — its program counter,
 what the statement does (a strict vocabulary; anything else is Untranslatable) and where control goes, from the nesting of
 the source (while / if / try-finally / try-except / for / break).  Its meaning is `CachePy.stepProg`. -/
 
-/-- **program_sim.** At EVERY program counter of `_iter_cached` and on EVERY state, the statement of the translated program
+/-- **program_sim.** At EVERY program counter of `__iter__` / `_iter_cached` and on EVERY state, the statement of the translated program
     does exactly what the machine `Cache.stepIter` does (same shared state, same locals, same next pc; blocked exactly when
     the machine is).  Hence `inv_step`, `safety`, `no_deadlock`, `progress`, `finished_answer`, … above are theorems about
     the statements as translated, not about a hand-aligned listing: a changed statement, order, batch size, handler or
@@ -361,7 +361,7 @@ theorem translated_machine_eq : CachePy.stepIterT Gen.iterCachedProgram = stepIt
   · rfl
 
 -- every program counter of the generator body has a node; the batch size is the source's
-example : (Gen.iterCachedProgram.map (·.pc)).length = 24 ∧ (CachePy.nodeAt Gen.iterCachedProgram .l137).map (·.op) = some (.forRange 10) := by decide
+example : (Gen.iterCachedProgram.map (·.pc)).length = 28 ∧ (CachePy.nodeAt Gen.iterCachedProgram .l137).map (·.op) = some (.forRange 10) := by decide
 -- the obligation distinguishes programs: without the read-ahead handler E escapes although the consumer's value is there
 example : CachePy.stepNode { pc := .l138, op := .appendNext false, next := .l137, alt := .l139, exc := .l144 }
             { initShared [7] (some .ZeroDivisionError) with cache := [7], genPos := 1, lock := some 0 } 0 { q := .iterAll, pc := .l138, i := 0, j := 1 }
